@@ -267,8 +267,12 @@ class UnitRegistry:
         return equiv
 
     def __deepcopy__(self, memodict=None):
-        lut = copy.deepcopy(self.lut)
-        return type(self)(lut=lut)
+        # the rows are immutable tuples, so a new dict is a complete copy; the
+        # dimension singletons stay the same objects, redefined built-in symbols
+        # are not overwritten by the defaults and the unit system is kept
+        return type(self)(
+            lut=dict(self.lut), add_default_symbols=False, unit_system=self.unit_system
+        )
 
 
 class _NonModifiableUnitRegistry(UnitRegistry):
